@@ -92,7 +92,7 @@ func caseC05(c *Ctx) {
 	if c.Chance(1, 8) {
 		op.Alias = true
 	}
-	sp := genSpelling(c, false)
+	sp := genSpellingSimple(c, forest)
 	doc, parts := spell(c, forest, sp)
 	levelJump := false
 	if form == "callback/md" && c.Chance(1, 6) {
